@@ -306,7 +306,16 @@ pub fn exec(c: &Case) -> Outcome {
         _ => None,
     };
     // `timeout` is what the reference model sees: a timeout that cannot elapse is none
-    let timeout = if huge.is_some() { None } else { c.timeout_ms.map(|ms| Duration::from_millis(40 + ms as u64 % 200)) };
+    let zero = c.huge_timeout == 5;
+    let timeout = if zero {
+        // legal but unusual: the first wait that finds nothing ready is already too long, so
+        // ConnectionTimeout is acceptable at any point - and a silent server must produce it
+        Some(Duration::from_millis(0))
+    } else if huge.is_some() {
+        None
+    } else {
+        c.timeout_ms.map(|ms| Duration::from_millis(40 + ms as u64 % 200))
+    };
     let opt_timeout = huge.or(timeout);
     // normalise the script: `Other` steps that coincide with dedicated steps are skipped, a
     // script that runs out is completed with silence (timeout) or EOF
@@ -342,13 +351,13 @@ pub fn exec(c: &Case) -> Outcome {
             let out = match r {
                 Ok(mut conn) => {
                     let props = conn.server_properties().clone();
-                    let usable = conn.open_channel(None).map(|ch| {
-                        let id = ch.channel_id();
-                        std::mem::forget(ch);
-                        id
-                    });
+                    // (the channel stays open across the close and is dropped afterwards)
+                    let opened = conn.open_channel(None);
+                    let usable = opened.as_ref().map(|ch| ch.channel_id()).map_err(|e| format!("{:?}", e));
                     let close = conn.close();
-                    Ok((props, usable.map_err(|e| format!("{:?}", e)), close.map_err(|e| format!("{:?}", e))))
+                    drop(opened);
+                    let usable: Result<u16, String> = usable;
+                    Ok((props, usable, close.map_err(|e| format!("{:?}", e))))
                 }
                 Err(e) => Err(e),
             };
@@ -472,7 +481,11 @@ pub fn exec(c: &Case) -> Outcome {
             other => return Outcome::fail("handshake-unexpected-error", ctx(&format!("{:?}", other))),
         },
     };
-    if !want.contains(&got) {
+    // zero timeout: the attempt may time out at any point; while the client waits for the reply
+    // to StartOk that surfaces as InvalidCredentials (as for every failure in that state)
+    let only_start_ok = seen.len() == 1 && matches!(&seen[0], AMQPFrame::Method(0, AMQPClass::Connection(Conn::StartOk(_))));
+    let zero_end = zero && (got == Want::ConnectionTimeout || (got == Want::InvalidCredentials && only_start_ok));
+    if !want.contains(&got) && !zero_end {
         let sig = match (&want[0], &got) {
             (Want::SaslSecureNotSupported, Want::InvalidCredentials) => "secure-challenge-reported-as-invalid-credentials".to_string(),
             (Want::Ok, _) => "complete-handshake-rejected".to_string(),
@@ -507,7 +520,9 @@ pub fn exec(c: &Case) -> Outcome {
         expect.push(format!("Method(1, Channel(Open(Open {{ out_of_band: \"\" }})))"));
         expect.push(format!("Method(0, Connection(Close(Close {{ reply_code: 200, reply_text: \"goodbye\", class_id: 0, method_id: 0 }})))"));
     }
-    if names != expect {
+    // (with a zero timeout the attempt may end at any point: what was written must be a prefix)
+    let early_end_allowed = zero_end;
+    if names != expect && !(early_end_allowed && expect.starts_with(&names)) {
         return Outcome::fail("handshake-frames-differ", ctx(&format!("client wrote {:?}, expected {:?}", names, expect)));
     }
     for f in &seen {
@@ -562,6 +577,9 @@ pub fn exec(c: &Case) -> Outcome {
     }
     if huge.is_some() {
         o.labels.push("timeout-at-top-of-range".into());
+    }
+    if zero {
+        o.labels.push("timeout-zero".into());
     }
     o
 }
@@ -632,7 +650,7 @@ fn strat(_t: Tier) -> BoxedStrategy<Case> {
                 script,
                 prop_oneof![1 => Just(None), 2 => any::<u16>().prop_map(Some)],
                 prop_oneof![2 => Just(0u8), 1 => 1u8..9],
-                prop_oneof![12 => Just(0u8), 1 => 1u8..=4],
+                prop_oneof![12 => Just(0u8), 1 => 1u8..=4, 1 => Just(5u8)],
             )
         })
         .prop_map(|((auth, locale, vhost, information, channel_max, frame_max, heartbeat), script, timeout_ms, chunk, huge_timeout)| Case {
@@ -654,7 +672,7 @@ fn strat(_t: Tier) -> BoxedStrategy<Case> {
 pub fn parts() -> Vec<Box<dyn PartDyn>> {
     vec![Box::new(Part::<Case> {
         name: "e2e",
-        rule: "client options (PLAIN with arbitrary user/password, EXTERNAL, a custom Sasl implementation, locale, virtual host, information, tuning values, connection_timeout none / 40-240 ms / one case in thirteen at the top of Duration's range) x a scripted server: the happy path Start(mechanism and locale lists incl. near-miss tokens)/Tune/OpenOk-or-Close with 0-2 deviations spliced in (heartbeats, Secure, Close, any of the 64 methods on channel 0/1, a content header, a malformed frame, EOF, an I/O error, silence), every server frame optionally cut into 1-8 byte segments; oracle: a reference model of the handshake gives the exact client frames (StartOk fields incl. capabilities/information, TuneOk per the C15 spec, Open vhost, CloseOk) and the result (Ok only after OpenOk, then usable and exposing Start's server properties; otherwise the specific error; InvalidCredentials also accepted for silence / socket errors / malformed data while waiting for the reply to StartOk); the timeout error may not come before the timeout; non-trivial = deviation after at least one correct step, or frames cut into segments; distinct by case hash",
+        rule: "client options (PLAIN with arbitrary user/password, EXTERNAL, a custom Sasl implementation, locale, virtual host, information, tuning values, connection_timeout none / 40-240 ms / one case in fourteen at the top of Duration's range, one in fourteen zero) x a scripted server: the happy path Start(mechanism and locale lists incl. near-miss tokens)/Tune/OpenOk-or-Close with 0-2 deviations spliced in (heartbeats, Secure, Close, any of the 64 methods on channel 0/1, a content header, a malformed frame, EOF, an I/O error, silence), every server frame optionally cut into 1-8 byte segments; oracle: a reference model of the handshake gives the exact client frames (StartOk fields incl. capabilities/information, TuneOk per the C15 spec, Open vhost, CloseOk) and the result (Ok only after OpenOk, then usable and exposing Start's server properties; otherwise the specific error; InvalidCredentials also accepted for silence / socket errors / malformed data while waiting for the reply to StartOk); the timeout error may not come before the timeout; non-trivial = deviation after at least one correct step, or frames cut into segments; distinct by case hash",
         cases: |t| t.pick(6000, 100_000),
         threads: 16,
         strategy: strat,
